@@ -153,11 +153,31 @@ def make(kind, s, n, eng=None):
 NATTR = 5
 
 
-def drv_eq(ka, sa, na, kb, sb, nb, meta_b):
+def observe(b):
+    """read-only use of one operand: equality is a function of content, not of what has been looked at before"""
+    seen = [b.start_line]
+    if isinstance(b, Field):
+        seen.append((b.key, b.value))
+        return seen
+    seen.append(b.raw)
+    seen.append(len(b.parser_metadata))
+    seen.append(b.get_parser_metadata("zz"))
+    if isinstance(b, Entry):
+        seen.append(len(b.fields_dict))
+        seen.append(b.get("zz"))
+        seen.append("zz" in b)
+        seen.append(len(b.items()))
+        seen.append(b.entry_type)
+    return seen
+
+
+def drv_eq(ka, sa, na, kb, sb, nb, meta_b, read_b=False):
     a = make(ka, sa, na)
     b = make(kb, sb, nb)
     if meta_b and not isinstance(b, Field):
         b.parser_metadata["m"] = sb[0]
+    if read_b:
+        observe(b)
     c = copy.copy(a)
     dc = copy.deepcopy(a)
     return a == b, b == a, a == c, a == dc, c is not a, dc is not a, a != b
@@ -172,31 +192,31 @@ def same_class(ka, kb):
     return base(ka) == base(kb)
 
 
-def replay_eq(ka, sa, na, kb, sb, nb, meta_b):
+def replay_eq(ka, sa, na, kb, sb, nb, meta_b, read_b=False):
     try:
-        r = drv_eq(ka, sa, na, kb, sb, nb, meta_b)
+        r = drv_eq(ka, sa, na, kb, sb, nb, meta_b, read_b)
     except Exception as ex:  # noqa
-        return {"input": [ka, sa, na, kb, sb, nb, meta_b], "observed": f"raised {type(ex).__name__}: {ex}", "expected": "booleans"}
+        return {"input": [ka, sa, na, kb, sb, nb, meta_b, read_b], "observed": f"raised {type(ex).__name__}: {ex}", "expected": "booleans"}
     exp = (same_class(ka, kb) and ka == kb and all(sa[i] == sb[i] for i in USED[ka]) and na == nb and not (meta_b and ka != "Field"))
     if r[0] == exp and r[1] == exp and r[2] and r[3] and r[4] and r[5] and r[6] == (not exp):
         return None
-    return {"input": [ka, sa, na, kb, sb, nb, meta_b], "observed": list(r), "expected": f"a==b is {exp}; copies equal"}
+    return {"input": [ka, sa, na, kb, sb, nb, meta_b, read_b], "observed": list(r), "expected": f"a==b is {exp}; copies equal"}
 
 
-def task_eq(ka, kb, meta_b):
+def task_eq(ka, kb, meta_b, read_b=False):
     eng = Engine()
     rec = Recorder(eng)
     sa = [eng.sym_str(f"a{i}_", 1, "xy") for i in range(NATTR)]
     sb = [eng.sym_str(f"b{i}_", 1, "xy") for i in range(NATTR)]
     na, nb = eng.sym_int("na", 0, 1), eng.sym_int("nb", 0, 1)
     E = eng.I.models.eq_simple
-    worlds = eng.run(drv_eq, [ka, sa, na, kb, sb, nb, meta_b])
+    worlds = eng.run(drv_eq, [ka, sa, na, kb, sb, nb, meta_b, read_b])
     if same_class(ka, kb) and ka == kb and not (meta_b and ka != "Field"):
         exp = b_all([E(sa[i], sb[i]) for i in USED[ka]] + [i_cmp("==", na, nb)])
     else:
         exp = False
     for W in worlds:
-        rp = lambda m: replay_eq(ka, eng.model_value(m, sa), eng.model_value(m, na), kb, eng.model_value(m, sb), eng.model_value(m, nb), meta_b)
+        rp = lambda m: replay_eq(ka, eng.model_value(m, sa), eng.model_value(m, na), kb, eng.model_value(m, sb), eng.model_value(m, nb), meta_b, read_b)
         if W.exc is not None:
             rec.require(W, True, "eq-no-exception", rp)
             continue
@@ -219,7 +239,7 @@ def main():
     chk = Check("C19", __doc__)
     depth = 2 if chk.tier == "quick" else 3
     chk.bounds = {"mapping": f"pre-state of 0..3 fields with distinct 1-char keys over {KS!r}; every sequence of 1..{depth} operations from {OPS} with symbolic key arguments",
-                  "equality": "all ordered pairs of kinds from Field/String/Preamble/ExplicitComment/ImplicitComment/Entry(1 field)/Entry(2 fields); every string attribute a symbolic char over {x,y}; start lines symbolic 0..1; with and without extra metadata"}
+                  "equality": "all ordered pairs of kinds from Field/String/Preamble/ExplicitComment/ImplicitComment/Entry(1 field)/Entry(2 fields); every string attribute a symbolic char over {x,y}; start lines symbolic 0..1; with and without extra metadata; with and without read-only use of one operand (start_line, raw, parser_metadata, get_parser_metadata, fields_dict, get, in, items) before the comparison"}
     chk.assumptions = ["field keys are distinct and not ENTRYTYPE/ID (statement)", "deleting an absent key is excluded (the statement does not fix whether a silent no-op is a 'result')",
                        "longer keys / deeper histories are outside the claim; the oracle dictionary is the engine's model of dict (keys compared by symbolic string equality, insertion order kept)"]
     chk.expected_vacuity = ["mapping-run", "equal-pair", "unequal-pair"]
@@ -236,6 +256,8 @@ def main():
                 if meta and ka != kb:
                     continue
                 chk.add_task(f"eq-{ka}-{kb}-m{int(meta)}", task_eq, ka=ka, kb=kb, meta_b=meta)
+                if ka == kb:
+                    chk.add_task(f"eq-{ka}-{kb}-m{int(meta)}-read", task_eq, ka=ka, kb=kb, meta_b=meta, read_b=True)
     chk.run()
 
 
